@@ -83,7 +83,11 @@ impl Projector {
                 }
             }
             Node::Leaf(_) => {
-                blocks.push(GraphBlock::Para(iter.inlines()));
+                // a paragraph without text (the parser reports one for a whitespace line behind a
+                // link reference definition) has nothing to render
+                if !iter.inlines().is_empty() {
+                    blocks.push(GraphBlock::Para(iter.inlines()));
+                }
             }
             Node::Raw(_, _) => {
                 blocks.push(GraphBlock::CodeBlock(
